@@ -161,3 +161,35 @@ func H16c() {
 		}
 	}
 }
+
+
+// H16long: columns beyond the widths a narrower integer would hold. A statement follows a string
+// argument of 250 or 65530 characters on one line, shifted by 0..8 symbolic blanks, so that its
+// column crosses 256 resp. 65536; a second line follows after 0..1 such long lines.
+func H16long() {
+	n := []int{250, 65530}[symChoice(2)]
+	pad := symChoice(9)
+	long := make([]byte, n)
+	for i := range long {
+		long[i] = 'x'
+	}
+	blanks := "         "[:pad]
+	text := `a "` + string(long) + `";` + blanks + `b c;` + "\n" + ` d;`
+	ss, err := Parse(text, "f")
+	check(err == nil && len(ss) == 3, "the text parses")
+	if err != nil || len(ss) != 3 {
+		return
+	}
+	reach("accepted")
+	colB := 3 + n + 2 + pad + 1
+	check(ss[0].Location() == "f:1:1", "first statement")
+	check(ss[1].Location() == "f:1:"+hItoa(int64(colB)), "a statement far to the right reports its true column")
+	check(ss[2].Location() == "f:2:2", "the next line starts over")
+	// and an error about a token far to the right
+	_, err2 := Parse(`a "`+string(long)+`";`+blanks+`}`, "f")
+	check(err2 != nil, "unexpected } is rejected")
+	if err2 != nil {
+		l, c, ok := h02Pos(err2.Error())
+		check(ok && l == 1 && c == 3+n+2+pad+1, "a syntax error about a token far to the right names its true column")
+	}
+}
